@@ -65,6 +65,17 @@ CHECKS = {
              'vs the model on generated SICD/SIDD files; search/oracle: harness/nitfparse.py (hand transcription of the standard). IGEOLO '
              'numerics are checked numerically only; masked/blocked general-writer layouts are not generated. ' + TB,
         technique='Lean 4 proof (induction on segment lists / fuel) + translator bridge for CLEVEL ladders + out-of-band NITF parser'),
+    'C02': dict(
+        text='Lean 4 theorems composing C03 and C07: the segment stores after any history are the scatter histories of their own chunks '
+             'and do not depend on flush placement; after close the in-memory (file-object) protocol has delivered exactly what the '
+             'memmap (path) protocol holds; histories whose per-segment chunk lists are permutations of one another on distinct positions '
+             'give the same file; routing image rows through the segmentation and reassembling them in the decoded order is the identity. '
+             'Real files: random sizes, pixel types (incl. AMP8I_PHS8I with random tables), row limits, chunkings, orders, flushes and '
+             'targets are written, compared byte for byte across histories, parsed out of band and reopened through open_complex.',
+        design='DESIGN.md 6/C02',
+        note='proved on the protocol/routing model (unbounded in sizes, segment count, history length); tied to NITFWriter by byte equality of '
+             'real outputs across protocols and histories, not by a translator. Pixel codecs: C08. Metadata: compared after derive(). ' + TB,
+        technique='Lean 4 proof (composition of C03/C07 theorems, state-machine induction) + byte-exact differential over histories'),
 }
 
 
@@ -87,7 +98,7 @@ def main():
         })
     m = {
         'version': 1,
-        'setup_cmd': 'cd lean && lake build SarpyModel SarpyModel.Drivers',
+        'setup_cmd': '/venv/bin/python translate/gen_all.py && cd lean && lake build SarpyModel SarpyModel.Drivers',
         'hooks': {'guard': 'SARPY_VERIF',
                   'enable': 'no source hooks: the harness observes sarpy from outside (wrappers and proxies at run time)',
                   'baseline_off_cmd': 'cd /repo && /venv/bin/python -m pytest -ra -q -p no:cacheprovider --timeout=900 --continue-on-collection-errors',
